@@ -104,7 +104,7 @@ def check_one(state, label, frame):
             closed = t.lose_time is not None
         if closed or new or w.reported_state() != 'ESTABLISHED':
             v.append(('C10|iii|an UPDATE body tore down or disturbed an Established session|%s' % label,
-                      {'wrote': new, 'closed': closed, 'state': w.reported_state()}))
+                      {'wrote': new, 'closed': closed, 'agent_state': w.reported_state()}))
         if rep and rep[0][0] == 'on_update_error':
             hexfield = dict(rep[0][1]).get('hex')
             if hexfield != repr(frame[19:]):
@@ -184,11 +184,11 @@ def run(tier, seed):
     explore.close_pool()
     total = 0
     classes = set()
-    for n, out, cl in res:
+    for t, (n, out, cl) in zip(tasks, res):
         total += n
         classes |= cl
         for k, det in out:
-            col.add(k, det, det)
+            col.add(k, det, det, task=t)
     n_new, n_known, summary = col.finish('c10-delivery')
     cov = {
         'states': len(STATES), 'transitions': total, 'traces_validated_against_impl': total,
@@ -213,8 +213,7 @@ def replay(path):
     d = json.load(open(path))
     w = d['witness']
     frame = bytes.fromhex(w['frame'])
-    a = check_one(w['state'], w['label'], frame)
-    b = check_one(w['state'], w['label'], frame)
+    a, b = report.twice(check_one, w['state'], w['label'], frame)
     if repr(a) != repr(b):
         print('HARNESS-ERROR: replay is not deterministic')
         return 2
@@ -226,4 +225,6 @@ def replay(path):
         h = c02.Harness()
         keys += [k.replace('C02|', 'C10|v|') for k, _ in c02.continuation(CFG.get(w['state'], {}), STATES[w['state']] + [('RX', 0, frame)], h, 0)]
         print(keys)
-    return 1 if d['key'] in keys else 0
+    if d['key'] in keys:
+        return 1
+    return report.replay_in_task(d, task)
